@@ -14,7 +14,9 @@
 (*                                                                           *)
 (* The checks are relational: any order / path / enumeration satisfying the  *)
 (* definition is accepted.  For n <= BFMax the defining (brute force) forms   *)
-(* decide, above that the polynomial forms (DagMC shows they agree).          *)
+(* decide, above that the polynomial forms (DagMC shows they agree; on every  *)
+(* recorded graph with n <= BFMax both forms are evaluated and a difference   *)
+(* is reported under the clause spec.selfcheck = broken oracle).              *)
 (* One TLC state per graph; every failing record is reported as              *)
 (*   <<"@@", id, clause, reason, expected>>                                  *)
 (* and every chain ends with                                                 *)
@@ -78,7 +80,9 @@ EvalGraph(g) ==
                 lw == LW(W)
                 isPath == IF small THEN p \in Paths(n, E) ELSE IsSrcSinkPath(n, E, p)
                 tag == IF Len(c.w) = 0 THEN "_default_weights" ELSE ""
-            IN  IF c.raised # "" THEN V("C17.longest_path", "raised_on_dag", lw)
+            IN  IF small /\ lw # LongestWeight(n, E, W)
+                     THEN V("spec.selfcheck", "LongestWeightDef_differs_from_LongestWeight", lw)
+                ELSE IF c.raised # "" THEN V("C17.longest_path", "raised_on_dag", lw)
                 ELSE IF Len(p) = 0 \/ Range(p) \ Nodes(n) # {}
                           \/ \E k \in 1..(Len(p) - 1) : <<p[k], p[k + 1]>> \notin E
                      THEN V("C17.longest_path", "not_a_path" \o tag, lw)
@@ -107,7 +111,8 @@ EvalGraph(g) ==
         NodeDepth(c) ==
             LET v == c.args[1]
                 exp == IF small THEN DepthDef(E, v) ELSE depth[v]
-            IN  IF c.raised # "" THEN V("C17.depth", "raised_on_dag", exp)
+            IN  IF exp # depth[v] THEN V("spec.selfcheck", "DepthDef_differs_from_DepthTable", exp)
+                ELSE IF c.raised # "" THEN V("C17.depth", "raised_on_dag", exp)
                 ELSE IF c.result < exp THEN V("C17.depth", "depth_too_small", exp)
                 ELSE IF c.result > exp THEN V("C17.depth", "depth_too_large", exp)
                 ELSE Pass("C17.depth")
